@@ -123,6 +123,9 @@ PROPS["C04"] = {
     "lean_module": "RaftVerif.Props.C04",
     "theorems": [
         T("RP.log_matching", "cluster model: equal (index, term) in two logs => equal logs through that index, every execution", "partial"),
+        T("SV.ae_refines_core", "the bridge between the two models for AppendEntries (core fragment: no snapshot, the store holds the entries 1..n, the cached last entry is the store's; request entries numbered from PrevLogEntry+1): the log the handler stepped against raft.go leaves behind is, entry for entry, the log the cluster model's RP.handleAE computes (take prev ++ mergeSuffix (drop prev) entries), and - unless the process dies while applying - it answers success exactly when RP.handleAE does"),
+        T("SV.scan_is_merge", "the entry scan + DeleteRange from the reported conflict + StoreLogs of what the scan asks for is the list merge of the cluster model, for every log 1..n and every request numbered from p+1 (p <= n)"),
+        T("SV.prevOk_core", "the previous-entry check of the stepped handler (cached last entry / store lookup) is the cluster model's check (length and term at that position)"),
         T("SV.ae_success_sound", "the stepped model's AppendEntries, every failure and crash ordinal: a success answer implies term >= own, the previous-entry check passed, and every planned write (truncation, staging, storing) was performed before the answer"),
         T("SV.aePrevOk_true", "what a passed previous-entry check means: PrevLogEntry = 0, or the cached last entry / the snapshot boundary with the announced term, or inside the snapshot, or stored with the announced term"),
         T("SV.aePlan_steps_refuse", "whatever write of AppendEntries fails, the answer is not success"),
